@@ -529,6 +529,12 @@ def load(f, **options):  # type: (typing.IO, **typing.Any) -> canmatrix.CanMatri
     #                                                       print switch
     #                                       else:
     #                                               print switch
+                    # malformed numbers reject the line
+                    for number in (factor, offset, min_value, max_value, start_value):
+                        if number is not None:
+                            float_factory(number)
+                    if display_decimal_places is not None:
+                        int(display_decimal_places)
                     if tmp_mux == "Mux":
                         signal = frame.signal_by_name(frame_name + "_MUX")
                         if signal is None:
